@@ -77,6 +77,9 @@ Definition dec_sample (flp : bool) (bytes : list N) : option (N * list N * optio
   do c <- rd 8 0 bytes;
   if c_negative c then None else
   if negb (c_below_2_32 c) then None else
+  (* the serde checks that the items fit in what is left before it copies them (the count is only then turned into a
+     unary number here: a corrupted C may claim 2^32 - 1 items) *)
+  if N.of_nat (length bytes) <? 8 + 8 * c_floor c then None else
   let num := N.to_nat (c_floor c) in
   do data <- rd_entries num (skipn 8 bytes);
   if c_has_frac c then
